@@ -384,7 +384,9 @@ impl Prop for C44 {
          1..16), cancellation of calls in flight, and a register probe (a call failing everywhere) after each history; \
          exhaustive: every answer script over {ok, network, non-network} for 1..3 endpoints, sequentially. `storm`: 2..6 \
          callers x 2..5 calls on a multi-thread runtime against endpoints answering by a pure function of (seed, call, \
-         endpoint); the stamped trace must be a run of the model. Non-trivial = every op of a history with >= 2 endpoints \
+         endpoint); the stamped trace must be a run of the model. S10 size-threshold stress (tags big/…): controlled histories with \
+         6, 7, 8, 9, 15, 16, 17, 31, 32, 33, 62, 63 endpoints (63 = the most the probe walks through) and up to 9 / 17 / 33 / 65 overlapping calls \
+         with network-failure-biased answers, and storms with 6..8 endpoints x 7..8 callers x 6..8 calls (the harness's maxima). Non-trivial = every op of a history with >= 2 endpoints \
          and every storm; distinct = distinct (op+trace, result)."
     }
     fn gen_ops(&mut self, rng: &mut Rng, tier: Tier, out: &mut Emitter) {
@@ -426,30 +428,52 @@ impl Prop for C44 {
         }
         // 2. random controlled interleavings of concurrent calls
         let hist = if thorough { 4000 } else { 300 };
-        for _ in 0..hist {
-            let n = rng.usize(1, 5);
-            out.op(format!("new n={n}"), "ctl/random", n >= 2);
+        // S10 size-threshold stress: after the regular histories, histories with 6..63 endpoints (63 = the most the
+        // harness's probe can walk through) and up to 9 / 17 / 33 / 65 overlapping calls, answers biased to network
+        // failures so that calls walk through many endpoints
+        let big_ns: [usize; 12] = [6, 7, 8, 9, 15, 16, 17, 31, 32, 33, 62, 63];
+        let big_live: [usize; 4] = [9, 17, 33, 65];
+        let big_hist = if thorough { 240 } else { 12 };
+        for hno in 0..hist + big_hist {
+            let big = hno >= hist;
+            let n = if big { big_ns[(hno - hist) % big_ns.len()] } else { rng.usize(1, 5) };
+            let max_live = if big { big_live[(hno - hist) % big_live.len()] } else { 4 };
+            let tag_random: String = if big { format!("big/ctl-n{n}-live{max_live}") } else { "ctl/random".into() };
+            let tag_random = tag_random.as_str();
+            out.op(format!("new n={n}"), tag_random, n >= 2);
             let mut live: Vec<u64> = vec![];
             let mut fails: HashMap<u64, usize> = HashMap::new();
             let mut next_id = 0u64;
-            let len = rng.usize(6, 40);
+            let len = if big { 3 * max_live + rng.usize(40, 120) } else { rng.usize(6, 40) };
+            if big {
+                // two calls that walk through EVERY endpoint: one fails everywhere, one succeeds on the last endpoint
+                for last in ["t", "o"] {
+                    out.op(format!("start c={next_id} m=a"), "big/walk-all", true);
+                    for e in 0..n {
+                        let k = if e + 1 == n { last.to_string() } else if rng.bool() { "t".to_string() } else { format!("s{}", rng.pick(&[14u32, 2, 4, 10])) };
+                        out.op(format!("respond c={next_id} kind={k}"), "big/walk-all", true);
+                    }
+                    next_id += 1;
+                }
+            }
             for _ in 0..len {
                 let r = rng.below(100);
-                if (live.len() < 4 && r < 30) || live.is_empty() {
+                if (live.len() < max_live && r < if big { 45 } else { 30 }) || live.is_empty() {
                     let m = *rng.pick(&["a", "p"]);
-                    out.op(format!("start c={next_id} m={m}"), "ctl/random", n >= 2);
+                    out.op(format!("start c={next_id} m={m}"), tag_random, n >= 2);
                     live.push(next_id);
                     next_id += 1;
                 } else if r < 88 {
                     let c = *rng.pick(&live);
-                    let k = match rng.below(10) {
+                    let k = match rng.below(10) + if big { 3 } else { 0 } {
                         0..=2 => "o".to_string(),
                         3 => "b".to_string(),
                         4..=5 => "t".to_string(),
-                        6..=7 => format!("s{}", rng.pick(&[14u32, 2, 4, 10])),
+                        6..=7 | 10..=11 => format!("s{}", rng.pick(&[14u32, 2, 4, 10])),
+                        12 => "t".to_string(),
                         _ => rng.pick(&kinds_all).clone(),
                     };
-                    out.op(format!("respond c={c} kind={k}"), "ctl/random", n >= 2);
+                    out.op(format!("respond c={c} kind={k}"), tag_random, n >= 2);
                     // a call ends on ok / bad payload / non-network status, or when its n-th endpoint failed;
                     // now and then a finished call is kept so that `nocall` answers are exercised too
                     let network = k == "t" || ["s14", "s2", "s4", "s10"].contains(&k.as_str());
@@ -460,10 +484,10 @@ impl Prop for C44 {
                     }
                 } else if r < 93 {
                     let c = *rng.pick(&live);
-                    out.op(format!("drop c={c}"), "ctl/random", n >= 2);
+                    out.op(format!("drop c={c}"), tag_random, n >= 2);
                     live.retain(|x| *x != c);
                 } else if r < 97 {
-                    out.op("probe", "ctl/random", n >= 2);
+                    out.op("probe", tag_random, n >= 2);
                 } else {
                     // misuse: respond / drop on unknown calls, start with an id in use
                     match rng.below(3) {
@@ -473,8 +497,8 @@ impl Prop for C44 {
                     }
                 }
             }
-            out.op("probe", "ctl/random", n >= 2);
-            out.op("reset", "ctl/random", false);
+            out.op("probe", tag_random, n >= 2);
+            out.op("reset", tag_random, false);
         }
         // 3. storms
         let storms = if thorough { 6000 } else { 400 };
@@ -485,6 +509,15 @@ impl Prop for C44 {
                 true,
             );
             out.op("reset", "storm", false);
+        }
+        // S10: storms at the largest sizes the harness supports (8 endpoints, 8 callers, 8 calls each) and just below
+        for _ in 0..(if thorough { 400 } else { 24 }) {
+            out.op(
+                format!("storm n={} callers={} calls={} seed={}", rng.usize(6, 8), rng.usize(7, 8), rng.usize(6, 8), rng.next_u64() >> 16),
+                "big/storm",
+                true,
+            );
+            out.op("reset", "big/storm", false);
         }
     }
 
